@@ -262,6 +262,9 @@ IsNoneOp ==
 RECURSIVE KeysOfT(_)
 KeysOfT(U) == CASE U.k = "rec" -> U.ks
                 [] U.k \in {"var", "reg", "opt"} -> KeysOfT(U.x)
+                \* a union has the fields that ALL of its members have, in the order of the first member
+                [] U.k = "union" -> SelectSeq(KeysOfT(U.xs[1]), LAMBDA key : \A j \in 2..Len(U.xs) :
+                                                                     \E q \in 1..Len(KeysOfT(U.xs[j])) : KeysOfT(U.xs[j])[q] = key)
                 [] OTHER -> <<>>
 HasUnionT(U) == LET RECURSIVE has(_)
                     has(W) == CASE W.k = "union" -> TRUE
